@@ -886,13 +886,15 @@ impl<'a, 'b> TryInto<AnnotationBuilder<'a>> for AnnotationCsv<'a> {
                         "",
                     ));
                 }
-                if self.targetkey.unwrap_or(Cow::Borrowed("")).find(";").is_some() {
+                let targetkey = self.targetkey.unwrap_or(Cow::Borrowed(""));
+                if targetkey.find(";").is_some() {
                     return Err(StamError::CsvError(
                         format!("Multiple target keys were specified, but without a complex selector"),
                         "",
                     ));
                 }
-                if self.targetdata.unwrap_or(Cow::Borrowed("")).find(";").is_some() {
+                let targetdata = self.targetdata.unwrap_or(Cow::Borrowed(""));
+                if targetdata.find(";").is_some() {
                     return Err(StamError::CsvError(
                         format!("Multiple target data were specified, but without a complex selector"),
                         "",
@@ -930,6 +932,16 @@ impl<'a, 'b> TryInto<AnnotationBuilder<'a>> for AnnotationCsv<'a> {
                     SelectorKind::DataSetSelector => {
                         let dataset = self.targetdataset;
                         SelectorBuilder::DataSetSelector(BuildItem::Id(dataset.to_string()))
+                    }
+                    SelectorKind::DataKeySelector => SelectorBuilder::DataKeySelector(
+                        BuildItem::Id(self.targetdataset.to_string()),
+                        BuildItem::Id(targetkey.to_string()),
+                    ),
+                    SelectorKind::AnnotationDataSelector => {
+                        SelectorBuilder::AnnotationDataSelector(
+                            BuildItem::Id(self.targetdataset.to_string()),
+                            BuildItem::Id(targetdata.to_string()),
+                        )
                     }
                     _ => unreachable!(),
                 }
